@@ -216,3 +216,19 @@ pub fn stable_text(max_units: usize) -> BoxedStrategy<String> {
     .prop_map(|v| v.concat())
     .boxed()
 }
+
+/// grapheme mode outside the stable domain: pool clusters, whitespace and segmentation hazards
+/// (lone regional indicators, jamo, ZWJ, combining marks) next to each other
+pub fn hazard_text(max_units: usize) -> BoxedStrategy<String> {
+    proptest::collection::vec(
+        prop_oneof![
+            3 => stable_cluster(),
+            4 => select(HAZARD_FRAGS).prop_map(str::to_string),
+            1 => select(COMBINING_FRAGS).prop_map(str::to_string),
+            4 => select(WS_FRAGS).prop_map(str::to_string),
+        ],
+        0..=max_units,
+    )
+    .prop_map(|v| v.concat())
+    .boxed()
+}
